@@ -442,10 +442,6 @@ func (w *world) run(steps []step) runInfo {
 		var rec []int
 		err := w.s.Apply(buildState(st.state, &rec))
 		ids := w.s.VerifNewSvcIDs()
-		if err == nil && w.in.nFailed != 0 {
-			// a failed write that Apply did not report: outside the model (never expected)
-			panic("verif: Apply returned nil although an injected failure happened")
-		}
 		ri.nWrites += w.in.nWrites
 		ri.nFailed += w.in.nFailed
 		if err != nil {
@@ -800,7 +796,7 @@ func main() {
 		default:
 			npips = append(npips, podNPIP)
 		}
-		steps, tags := genHistory(r, false)
+		steps, tags := genHistory(r, r.intn(3) == 0)
 		emit(enc, npips, steps, tags, reset)
 	}
 }
